@@ -144,6 +144,9 @@ type (
 		// keyed by node name, includes the meta (shard state) information
 		remoteNodeStates   map[string]NodeShardState
 		remoteNodeStatesMu sync.RWMutex
+		// leftNodes holds the nodes that left the cluster and have not rejoined (protected by remoteNodeStatesMu).
+		// A full-state snapshot of such a node that is merged late must not resurrect its shards.
+		leftNodes map[string]struct{}
 	}
 
 	// shardDelegate implements memberlist.Delegate for shard state management
@@ -193,6 +196,7 @@ func NewShardManager(memberlistConfig *config.MemberlistConfig, shardCountConfig
 		localAckChannels:         make(map[history.ClusterShardID]chan RoutedAck),
 		localReceiverCancelFuncs: make(map[history.ClusterShardID]context.CancelFunc),
 		remoteNodeStates:         make(map[string]NodeShardState),
+		leftNodes:                make(map[string]struct{}),
 	}
 
 	delegate.manager = sm
@@ -1041,6 +1045,12 @@ func (sd *shardDelegate) MergeRemoteState(buf []byte, join bool) {
 	// Save the remote state to local map
 	if sd.manager != nil {
 		sd.manager.remoteNodeStatesMu.Lock()
+		if _, left := sd.manager.leftNodes[state.NodeName]; left {
+			// A delayed snapshot of a node that has left since: ignore it, the node owns nothing any more.
+			sd.manager.remoteNodeStatesMu.Unlock()
+			sd.logger.Debug("Ignored remote shard state of a node that left", tag.NewStringTag("node", state.NodeName))
+			return
+		}
 		sd.manager.remoteNodeStates[state.NodeName] = state
 		sd.manager.remoteNodeStatesMu.Unlock()
 	}
@@ -1240,6 +1250,11 @@ func (sed *shardEventDelegate) NotifyJoin(node *memberlist.Node) {
 	sed.logger.Info("Node joined cluster",
 		tag.NewStringTag("node", node.Name),
 		tag.NewStringTag("addr", node.Addr.String()))
+	if sed.manager != nil {
+		sed.manager.remoteNodeStatesMu.Lock()
+		delete(sed.manager.leftNodes, node.Name)
+		sed.manager.remoteNodeStatesMu.Unlock()
+	}
 }
 
 func (sed *shardEventDelegate) NotifyLeave(node *memberlist.Node) {
@@ -1251,6 +1266,7 @@ func (sed *shardEventDelegate) NotifyLeave(node *memberlist.Node) {
 	if sed.manager != nil {
 		sed.manager.remoteNodeStatesMu.Lock()
 		delete(sed.manager.remoteNodeStates, node.Name)
+		sed.manager.leftNodes[node.Name] = struct{}{}
 		sed.manager.remoteNodeStatesMu.Unlock()
 	}
 
